@@ -19,8 +19,8 @@ CMPS = ('=', '<>', '<', '>', '<=', '>=')
 OPS = ARITH + ('&',) + CMPS
 
 BOUNDS = {
-    'quick': '40 error producers (3 operator-made, 4 returned by built-ins, 3 raised by built-ins, 8 raised + 8 returned '
-             'by a custom function, 8 host variables, 8 host cells; 7 literals separately) x 11 operators x '
+    'quick': '48 error producers (3 operator-made, 4 returned by built-ins, 3 raised by built-ins, 8 raised + 8 returned '
+             'by a custom function, 8 raised as fresh error objects, 8 host variables, 8 host cells; 7 literals separately) x 11 operators x '
              '{left,right} + unary minus + 8 two-level contexts, x 8 observers; all ordered pairs of 8 codes x 11 operators '
              'for the left-wins rule; non-error controls',
     'thorough': 'same space plus three-level contexts and both-sides pairs over all producer kinds',
@@ -51,7 +51,13 @@ def producers(env):
         P.append(dict(text='FRET(%d)' % i, code=c, kind='custom-returns'))
         P.append(dict(text='ev%s' % 'abcdefgh'[i], code=c, kind='host-variable'))
         P.append(dict(text='$E$%d' % (i + 1), code=c, kind='host-cell'))
+    for i, c in enumerate(CODES8):
+        # a custom function raising an error object OF ITS OWN MAKING (same code, not the library's shared object)
+        P.append(dict(text='FRAISEF(%d)' % i, code=c, kind='custom-raises-fresh'))
     return P
+
+
+NPRODUCERS = 48
 
 
 LITERALS = ['#NULL!', '#DIV/0!', '#VALUE!', '#REF!', '#NAME?', '#NUM!', '#N/A', '#ERROR!']
@@ -65,11 +71,14 @@ def bind(env):
 
     def fret(i):
         return errs[int(i)]
+
+    def fraisef(i):
+        raise env.err.XLError(CODES8[int(i)])
     vars = dict(('ev%s' % 'abcdefgh'[i], errs[i]) for i in range(8))
     vars['vok'] = 5
     cells = dict(('$E$%d' % (i + 1), errs[i]) for i in range(8))
     cells.update(dict(('E%d' % (i + 1), errs[i]) for i in range(8)))
-    return vars, {'FRAISE': fraise, 'FRET': fret}, cells
+    return vars, {'FRAISE': fraise, 'FRET': fret, 'FRAISEF': fraisef}, cells
 
 
 def benign(op):
@@ -146,7 +155,7 @@ class Propagate(Sub):
     min_classes = 5
 
     def cases(self, tier, unit):
-        for pi in range(40):
+        for pi in range(NPRODUCERS):
             for ci, (cname, _) in enumerate(contexts(tier)):
                 yield [pi, cname]
 
